@@ -253,3 +253,184 @@ func kindsSorted(m map[string]bool) []string {
 	}
 	return out
 }
+
+// genReadBetweenHistory builds a history around READS OF FRESHLY LOADED, NOT YET PROCESSED MODULES
+// between a load and the next Process.  Such a read is not answered by the model (`unprocessed`: the
+// contract is Process first) - the point is its SIDE EFFECT on the next Process, whose outcome is
+// compared with the batch run on a fresh set: the read converts a module with the links, caches and
+// memos of the PREVIOUS run (include links still point to the superseded revision), and nothing it
+// leaves behind may survive the reset at the top of Process.
+// Module a reaches typedefs (t, a chain t2 -> t), a grouping and identities through a submodule s
+// (one time in three through s -> s2), or holds them itself (one time in four); module u imports a
+// and uses a:t in leaves, unions, leaf-lists, a:t2, uses a:g, identityref / base a:i.  Everything is
+// processed.  Then arrive, in either order, a NEWER revision of the submodule (of s2, of a) whose t
+// has another base type, whose grouping has other leaves, whose identities have other derivations,
+// and a NEW module c that imports a and uses the same definitions; a read of c (Find from
+// ms.Modules["c"], or a walk = ToEntry of everything) comes after both, between them, or before the
+// revision (and sometimes a read of the old module u as well); then Process.  Sometimes a further new
+// module d arrives with a read of its own and another Process, or Process runs twice.
+func genReadBetweenHistory(r *rand.Rand, maxLen int) History {
+	one := func(n int) bool { return r.Intn(n) == 0 }
+	str := func() *gen.Node { return nd("type", "string") }
+	viaSub := !one(4)
+	deep := viaSub && one(3)
+	tB := []*gen.Node{
+		nd("type", "int32"),
+		nd("type", "enumeration", nd("enum", "e1"), nd("enum", "e2")),
+		nd("type", "string", nd("length", "2..4")),
+		nd("type", "union", nd("type", "int8"), nd("type", "boolean")),
+		nd("type", "decimal64", nd("fraction-digits", "2")),
+	}[r.Intn(5)]
+	defs := func(v int) []*gen.Node {
+		t := nd("type", "string", nd("length", "1..8"))
+		g := nd("grouping", "g", nd("leaf", "gl", nd("type", "t")), nd("leaf", "ga", str()))
+		ids := []*gen.Node{nd("identity", "i"), nd("identity", "k", nd("base", "i"))}
+		if v > 0 {
+			t = cloneNode(tB)
+			g = nd("grouping", "g", nd("leaf", "gl", nd("type", "t")), nd("leaf", "gb", nd("type", "int8")))
+			ids = append(ids, nd("identity", "k2", nd("base", "i")))
+		}
+		return append([]*gen.Node{nd("typedef", "t", t), nd("typedef", "t2", nd("type", "t")), g}, ids...)
+	}
+	mk := func(v int) (a, s, s2 *gen.Module) {
+		a = &gen.Module{Name: "a", Prefix: "a", Namespace: "urn:a", ImportPrefix: map[*gen.Module]string{}, Body: nd("module", "a")}
+		own := []*gen.Node{nd("container", "ac", nd("leaf", "al", nd("type", "t")), nd("uses", "g"))}
+		rev := []string{"2019-01-01", "2021-01-01"}[v]
+		if !viaSub {
+			a.Revisions = []string{rev}
+			a.Body.Kids = append(defs(v), own...)
+			return a, nil, nil
+		}
+		a.Body.Kids = own
+		s = &gen.Module{Name: "s", Prefix: "a", Namespace: "urn:a", Sub: true, Owner: a, ImportPrefix: map[*gen.Module]string{}, Body: nd("submodule", "s")}
+		a.Includes = append(a.Includes, s)
+		if !deep {
+			s.Revisions = []string{rev}
+			s.Body.Kids = defs(v)
+			return a, s, nil
+		}
+		s2 = &gen.Module{Name: "s2", Prefix: "a", Namespace: "urn:a", Sub: true, Owner: a, Revisions: []string{rev}, ImportPrefix: map[*gen.Module]string{}, Body: nd("submodule", "s2")}
+		s.Includes = append(s.Includes, s2)
+		s.Body.Kids = []*gen.Node{nd("container", "sc", nd("leaf", "sl", nd("type", "t2")))}
+		s2.Body.Kids = defs(v)
+		return a, s, s2
+	}
+	aA, sA, s2A := mk(0)
+	aB, sB, s2B := mk(1)
+	user := func(name string) *gen.Module {
+		m := &gen.Module{Name: name, Prefix: name, Namespace: "urn:" + name, ImportPrefix: map[*gen.Module]string{}, Body: nd("module", name)}
+		m.Imports = append(m.Imports, aA)
+		m.ImportPrefix[aA] = "a"
+		b := []*gen.Node{nd("leaf", name+"l", nd("type", "a:t"))}
+		opt := []*gen.Node{
+			nd("leaf", name+"u", nd("type", "union", nd("type", "a:t"), nd("type", "boolean"))),
+			nd("leaf-list", name+"ll", nd("type", "a:t2")),
+			nd("typedef", name+"t", nd("type", "a:t")),
+			nd("container", name+"c", nd("uses", "a:g")),
+			nd("leaf", name+"ir", nd("type", "identityref", nd("base", "a:i"))),
+			nd("identity", name+"i", nd("base", "a:k")),
+			nd("augment", "/a:ac", nd("leaf", name+"aug", nd("type", "a:t"))),
+		}
+		for _, o := range opt {
+			if !one(3) {
+				b = append(b, o)
+				if o.Kw == "typedef" {
+					b = append(b, nd("leaf", name+"tl", nd("type", name+"t")))
+				}
+			}
+		}
+		m.Body.Kids = b
+		return m
+	}
+	it := func(m *gen.Module, file string) item { return item{name: file, text: m.Text(), mod: m} }
+	first := []item{it(aA, aA.FileName())}
+	if !viaSub {
+		first[0].name = "a@2019-01-01.yang"
+	}
+	origin := "read-between-load-and-process+definitions-in-the-module"
+	var lateDef item
+	switch {
+	case deep:
+		first = append(first, it(sA, "s.yang"), it(s2A, "s2@2019-01-01.yang"))
+		lateDef = it(s2B, "s2@2021-01-01.yang")
+		origin = "read-between-load-and-process+definitions-behind-two-includes"
+	case viaSub:
+		first = append(first, it(sA, "s@2019-01-01.yang"))
+		lateDef = it(sB, "s@2021-01-01.yang")
+		origin = "read-between-load-and-process+definitions-in-a-submodule"
+	default:
+		lateDef = it(aB, "a@2021-01-01.yang")
+	}
+	lateDef.variant = true
+	u, c := user("u"), user("c")
+	first = append(first, it(u, "u.yang"))
+	if one(3) {
+		r.Shuffle(len(first), func(i, j int) { first[i], first[j] = first[j], first[i] })
+	}
+	h := History{ReadsEverywhere: one(5)}
+	pattern := ""
+	load := func(x item) { h.Ops = append(h.Ops, Op{Op: "load", Name: x.name, Text: x.text}) }
+	read := func(m *gen.Module) {
+		if one(3) {
+			h.Ops = append(h.Ops, Op{Op: "walk"})
+			return
+		}
+		h.Ops = append(h.Ops, Op{Op: "read", Key: m.Name, Path: "/" + m.Prefix + ":" + m.Name + "l"})
+	}
+	for _, x := range first {
+		load(x)
+	}
+	h.Ops = append(h.Ops, Op{Op: "process"})
+	if one(4) {
+		read(u)
+	}
+	cIt := it(c, "c.yang")
+	switch r.Intn(6) {
+	case 0, 1, 2:
+		load(lateDef)
+		load(cIt)
+		read(c)
+		if one(3) {
+			read(u)
+		}
+		pattern += "+read-after-both"
+	case 3:
+		load(cIt)
+		load(lateDef)
+		read(c)
+		pattern += "+read-after-both"
+	case 4:
+		load(cIt)
+		read(c)
+		load(lateDef)
+		if one(2) {
+			read(c)
+			pattern += "+read-before-and-after-the-revision"
+		} else {
+			pattern += "+read-before-the-revision"
+		}
+	default:
+		load(lateDef)
+		read(u)
+		load(cIt)
+		if one(2) {
+			h.Ops = append(h.Ops, Op{Op: "walk"})
+			pattern += "+read-after-both"
+		} else {
+			pattern += "+old-module-read-between"
+		}
+	}
+	h.Ops = append(h.Ops, Op{Op: "process"})
+	switch r.Intn(4) {
+	case 0:
+		h.Ops = append(h.Ops, Op{Op: "process"})
+	case 1:
+		d := user("d")
+		load(it(d, "d.yang"))
+		read(d)
+		h.Ops = append(h.Ops, Op{Op: "process"})
+		pattern += "+another-new-module-read"
+	}
+	h.Origin = origin + "/" + strings.TrimPrefix(pattern, "+")
+	return h
+}
